@@ -237,6 +237,21 @@ impl SocksForwarder {
         user_agent: Option<&str>,
         target: &Target,
     ) -> ReqOutcome {
+        self.tcp_connect_pipe(creds, tls_domain, client_address, user_agent, target, &mut None)
+            .await
+    }
+
+    /// The same; on success `pipe_out` receives the peer ends of the pipe the connector made
+    /// (what `Tunnel::on_tcp_connect_request` relays through)
+    pub async fn tcp_connect_pipe(
+        &self,
+        creds: &Creds,
+        tls_domain: &str,
+        client_address: IpAddr,
+        user_agent: Option<&str>,
+        target: &Target,
+        pipe_out: &mut Option<(crate::verif::pipe::SourceOut, crate::verif::pipe::SinkOut)>,
+    ) -> ReqOutcome {
         let destination = match target {
             Target::Ip(a) => net_utils::TcpDestination::Address(*a),
             Target::Domain(name, port) => net_utils::TcpDestination::HostName((name.clone(), *port)),
@@ -251,7 +266,13 @@ impl SocksForwarder {
         };
         let connector = socks5_forwarder::Socks5Forwarder::new(self.0.clone()).tcp_connector();
         match connector.connect(log_utils::IdChain::empty(), meta).await {
-            Ok(_) => ReqOutcome::Established,
+            Ok((source, sink)) => {
+                *pipe_out = Some((
+                    crate::verif::pipe::SourceOut(source),
+                    crate::verif::pipe::SinkOut(sink),
+                ));
+                ReqOutcome::Established
+            }
             Err(tunnel::ConnectionError::Io(e)) => ReqOutcome::Io(e.kind(), e.to_string()),
             Err(tunnel::ConnectionError::Authentication(s)) => ReqOutcome::Authentication(s),
             Err(tunnel::ConnectionError::Timeout) => ReqOutcome::Timeout,
